@@ -64,6 +64,19 @@ CHECKS = {
                 "validated step by step by TLC against the same spec (TraceTreeADT.tla).",
         "note": "Trusted: TLC, projection, builder. Exhaustive for 3 points (names <= 7); sampled walks beyond. Real-valued data compared with fresh rebuild only.",
     },
+    "C07": {
+        "engine": "TreeADT.tla",
+        "category": "model_checking",
+        "technique": "TLC invariants (well-formed, data conserved) over the Tree edit-grammar closure; co-exploration and TLC trace validation of real Tree objects; projection check on every output of every enumerated sampler path and of recorded chains",
+        "design_ref": "DESIGN.md 5 C07",
+        "text": "TLC checks InvWF / InvConserved / NamesUnique on every state of the edit-grammar closure (3 points, all histories) and refutes "
+                "the no-relabel deviation. The real Tree is co-explored against that graph (every realised edge must be a spec edge and its "
+                "four internal views must agree), in-place walks on 4 points are validated step by step by TLC, every output tree of every RNG "
+                "path of the burn-in SMC, particle-Gibbs, subtree, data-point and prune-regraft samplers (1-3 points, incl. one-particle "
+                "runs) is projected and must hold exactly the input data, and every sampler call and trace entry of seeded end-to-end chains "
+                "is checked the same way.",
+        "note": "Trusted: TLC, the projection (reads internals without mutating accessors). Bounds: 3 points exhaustive for edits, <=3 points for sampler paths, sampled chains.",
+    },
     "C08": {
         "engine": "Proposal.tla",
         "category": "model_checking",
